@@ -6,6 +6,7 @@ import time
 sys.path.insert(0, os.environ.get("VERIF_REPO", "/repo"))
 sys.path.insert(0, os.path.dirname(os.path.abspath(__file__)))
 sys.setrecursionlimit(20000)
+sys.set_int_max_str_digits(0)  # z3's Python API renders wide bit-vector constants through str(int)
 import framework  # noqa: E402
 
 pid, tier = sys.argv[1].upper(), sys.argv[2]
